@@ -92,4 +92,5 @@ class C16(Check):
 
 
 def main(tier, seed, replay=None):
-    return C16().main(tier, seed, replay)
+    from harness import densex
+    return densex.extend(C16, densex.D16())().main(tier, seed, replay)
